@@ -685,3 +685,35 @@ def sqrt_axioms(*formulas):
             args[t.arg(0).get_id()] = t.arg(0)
         stack.extend(t.children())
     return [z3.Implies(x >= 0, z3.And(SQRT(x) >= 0, SQRT(x) * SQRT(x) == x)) for x in args.values()]
+
+
+def div_axioms(*formulas):
+    """Instances of the defining axioms of integer div / mod for every application with a NON-NUMERAL divisor that occurs in
+    the formulas:  b > 0 => b*(a div b) <= a < b*(a div b) + b,  a mod b = a - b*(a div b),  and monotonicity between terms
+    with the same divisor.  (Valid facts about SMT-LIB div/mod; they only help the nonlinear solver.)"""
+    import itertools as _it
+    seen, terms, stack = set(), {}, [z3.simplify(f) for f in formulas]
+    while stack:
+        t = stack.pop()
+        if t.get_id() in seen:
+            continue
+        seen.add(t.get_id())
+        if z3.is_quantifier(t):
+            continue
+        if z3.is_app(t) and t.decl().kind() in (z3.Z3_OP_IDIV, z3.Z3_OP_MOD):
+            a, b = t.children()
+            if not z3.is_int_value(b):
+                terms[(a.get_id(), b.get_id())] = (a, b)
+        stack.extend(t.children())
+    dts = list(terms.values())
+    if not dts or len(dts) > 40:
+        return []
+    ax = []
+    for a, b in dts:
+        q = a / b
+        ax.append(z3.Implies(b > 0, z3.And(b * q <= a, a < b * q + b, a % b == a - b * q)))
+    for (a1, b1), (a2, b2) in _it.permutations(dts, 2):
+        if b1.get_id() == b2.get_id():
+            ax.append(z3.Implies(z3.And(b1 > 0, a1 <= a2), a1 / b1 <= a2 / b1))
+            ax.append(z3.Implies(z3.And(b1 > 0, a1 + b1 <= a2), a1 / b1 + 1 <= a2 / b1))
+    return ax
